@@ -2,6 +2,7 @@
 From Coq Require Import List Bool ZArith.
 From C33 Require Import Lib.OMap.
 From C33 Require Import C10.Model C10.Spec C10.ProofsRefuted C10.Proofs.
+From C33 Require Import C10.Join C10.JoinSpec C10.ProofsJoinRefuted.
 
 Theorem C10_table_refines_map_refuted : ~ C10_table_refines_map_full.
 Proof. exact refuted_full. Qed.
@@ -62,3 +63,30 @@ Theorem C10_queries_partial :
     forall p d, In (p, d) rs <-> (get p (snd (s_run nil ops)) = Some d /\ q_match q p d = true).
 Proof. exact queries_partial. Qed.
 Print Assumptions C10_queries_partial.
+
+(** * JoinTable (join.go): left table, right table and the join table's index
+    records against two maps and their relational join.  [jrefines c] = every
+    history inside the guard with clauses [c] answers like the maps and a final
+    join.Save leaves exactly the maps' records and the join's index records.
+    Dropping any one clause of the guard allows a counterexample (each is an
+    open finding reproduced on the Go code by the harness). *)
+
+(** finding 5: the foreign-key lookup is a prefix scan *)
+Theorem C10_join_refuted_prefix_scan : ~ jrefines (mkCl true true true false).
+Proof. exact jrefuted_prefix. Qed.
+Print Assumptions C10_join_refuted_prefix_scan.
+
+(** finding 6: left Del in the window in which its right row is added / changes status *)
+Theorem C10_join_refuted_del_right_change : ~ jrefines (mkCl true true false true).
+Proof. exact jrefuted_del. Qed.
+Print Assumptions C10_join_refuted_del_right_change.
+
+(** finding 7: the foreign key of a stored left row changes *)
+Theorem C10_join_refuted_fk_change : ~ jrefines (mkCl false true true true).
+Proof. exact jrefuted_fk. Qed.
+Print Assumptions C10_join_refuted_fk_change.
+
+(** finding 8: a pending left row without right row makes join.Save fail *)
+Theorem C10_join_refuted_dangling : ~ jrefines (mkCl true false true true).
+Proof. exact jrefuted_dangling. Qed.
+Print Assumptions C10_join_refuted_dangling.
